@@ -38,6 +38,11 @@ impl<F: Field> Optimizer<F> {
         ops: Vec<Op<F>>,
         external_inputs: &[WitnessId],
     ) -> (Vec<Op<F>>, HashMap<WitnessId, WitnessId>) {
+        #[cfg(p3r_verif)]
+        crate::verif_trace::emit(&alloc::format!(
+            "\"ev\":\"optimize_begin\",\"ops\":{}",
+            ops.len()
+        ));
         let (ops, rewrite) = Deduplicator::new().run(ops);
         let external: Vec<WitnessId> = external_inputs
             .iter()
